@@ -187,10 +187,14 @@ class MarketRun:
                             o = Order(agent_id=0, market_id=m.market_id, is_buy=True,
                                       kind=MARKET_ORDER, volume=1)
                     else:
+                        # a time-to-live of 0 ("this step only") cannot be given to the constructor, but an
+                        # order-before hook can write it (OrderMistakeShock with orderTimeLength 0 does)
                         o = Order(agent_id=op["agent"], market_id=op.get("market", m.market_id),
                                   is_buy=op["buy"],
                                   kind=MARKET_ORDER if op["price"] is None else LIMIT_ORDER,
-                                  volume=op["vol"], price=op["price"], ttl=op["ttl"])
+                                  volume=op["vol"], price=op["price"], ttl=1 if op["ttl"] == 0 else op["ttl"])
+                        if op["ttl"] == 0:
+                            o.ttl = 0
                     raw = o.price
                     stamped = o.placed_at is not None or o.order_id is not None
                     mkt_ok = o.market_id == m.market_id
@@ -404,7 +408,7 @@ def gen_history(rng, n_ops, profile=None):
                     price += rng.choice([0.3, 0.5, 0.77, 0.001]) * tick
                 if price <= 0:
                     price = rng.choice([tick, 0.4 * tick, 0.3 * tick])
-            ttl = rng.choice([None, None, 1, 2, 3, 5]) if profile != "expiry" else rng.choice([1, 1, 2, 3, None])
+            ttl = rng.choice([None, None, 1, 2, 3, 5, 0]) if profile != "expiry" else rng.choice([1, 1, 2, 3, None, 0])
             ops.append({"op": "add", "agent": rng.randint(0, 4), "buy": buy, "price": price,
                         "vol": rng.randint(1, max_vol), "ttl": ttl})
             n_orders += 1
